@@ -131,7 +131,10 @@ fn exec_line(line: &str, k: usize) -> String {
             let bits = u64::from_str_radix(p[1], 16).unwrap();
             let (code, mut raw) = if p[0] == "F64" { (11, bits.to_le_bytes().to_vec()) } else { (10, (bits as u16).to_le_bytes().to_vec()) };
             let one = raw.clone(); raw.extend(one);
-            run_model(model_initializer(tensor_proto("init", code, Some(&raw), &[], &[], 2)), optimize)
+            // optimisation off: this isolates the loader's constant conversion (the optimizer may later
+            // replace the output by a shape-inference constant, which e.g. turns -0.0 into +0.0)
+            let _ = optimize;
+            run_model(model_initializer(tensor_proto("init", code, Some(&raw), &[], &[], 2)), false)
         }
         _ => "Rejected".to_string(),
     }
